@@ -56,7 +56,7 @@ def render_atomistic(rng):
     r = M.render_fragment(rng, g, list(g.nodes), desc,
                           opts={'bracket_p': rng.choice([0.0, 0.3]), 'explicit_single': rng.choice([0.0, 0.15]),
                                 'leading': rng.choice([None, True, False]), 'desc_pos': rng.choice([None, 'before', 'after', 'mixed']),
-                                'desc_after_branch': rng.choice([0.0, 0.5])})
+                                'desc_after_branch': rng.choice([0.0, 0.5]), 'desc_in_parens': rng.choice([0.0, 0.0, 0.3])})
     tokens = []
     for t in r['tokens']:
         if t[0] == 'atom' and t[2] in annots:
